@@ -24,7 +24,7 @@
     the tables after the step. *)
 From Nexus Require Import Router.Realm Router.RealmProofs Router.RealmMetaProofs Router.RealmLeave.
 From Nexus Require Import Router.BrokerWf Router.DealerProofs Router.DealerWf.
-From Nexus Require Import Router.RealmWf Router.RealmStep Router.RealmC05 Router.RealmIdle.
+From Nexus Require Import Router.RealmWf Router.RealmStep Router.RealmC05 Router.RealmIdle Router.RealmOutputs.
 
 (** ** The invariant holds initially, is preserved by every step, hence holds of
     every reachable realm *)
@@ -89,6 +89,24 @@ Theorem leave_wf : forall r sid k,
     (client r sid -> nowhere (fst (leave r sid)) sid).
 Proof. exact RealmWf.leave_wf. Qed.
 Print Assumptions leave_wf.
+
+(** ** ... and consequently nothing is sent to a session after it ended: every
+    message of every step is addressed to a session attached when the step
+    starts (the meta session counts as attached; its own mail is consumed
+    inside the step) or to the session that is joining. *)
+Theorem outputs_to_attached : forall r o k x m,
+    realm_wf r -> ids_below k r -> k < max_idN -> op_ok o ->
+    In (x, m) (snd (step r o)) ->
+    lookup r x <> None \/ (exists l h, o = OJoin x l h).
+Proof. exact RealmOutputs.outputs_to_attached. Qed.
+Print Assumptions outputs_to_attached.
+
+Theorem no_output_to_ended : forall r o k sid m,
+    realm_wf r -> ids_below k r -> k < max_idN -> op_ok o ->
+    ~ client r sid -> sid <> meta_id -> (forall l h, o <> OJoin sid l h) ->
+    ~ In (sid, m) (snd (step r o)).
+Proof. exact RealmOutputs.no_output_to_ended. Qed.
+Print Assumptions no_output_to_ended.
 
 (** ** served_calls_error, own_calls_abandoned *)
 Theorem served_calls_error : forall r sid k inv,
